@@ -382,8 +382,96 @@ def _slist_slice(I, ln, arr, ek, idx, nd):
     return I.st.alloc('slist', {'len': n, 'arr': narr, 'ek': ek}, nd=nd)
 
 
+# ===================================================================== numpy element types (dtype)
+# An ndarray's dtype is the common kind of its elements (int / float / bool): the creating models keep float arrays
+# filled with real-kind values (0.0, ToReal(..)) and integer arrays with int-kind values, and every STORE into an
+# ndarray casts the stored value to the array's dtype the way numpy does (float -> int truncates toward zero).
+def nd_dtype(I, obj):
+    """'int' | 'float' | 'bool' of an ndarray-flavoured list (an empty array counts as float)"""
+    if obj.kind == 'slist':
+        return {'real': 'float', 'int': 'int', 'bool': 'bool'}.get(I.st.heap[obj]['ek'], 'float')
+    if obj.kind != 'clist':
+        return 'float'
+    kinds = set()
+
+    def walk(o):
+        for x in I.st.heap[o]:
+            if is_list(x):
+                if x.kind == 'clist':
+                    walk(x)
+                else:
+                    kinds.add({'real': 'real', 'int': 'int'}.get(I.st.heap[x].get('ek'), 'real'))
+            else:
+                kinds.add(numkind(x))
+    walk(obj)
+    if not kinds or 'real' in kinds or None in kinds:
+        return 'float'
+    if kinds == {'bool'}:
+        return 'bool'
+    return 'int'
+
+
+def cast_scalar(I, v, dt):
+    k = numkind(v)
+    if k is None or dt is None:
+        return v
+    if dt == 'float':
+        if k == 'real':
+            return v
+        if isinstance(v, SV):
+            return SV(zreal(v), 'real')
+        return float(v)
+    if dt == 'int':
+        if k in ('int',):
+            return v
+        if k == 'bool':
+            return SV(zint(v), 'int') if isinstance(v, SV) else int(v)
+        if isinstance(v, SV):
+            t = v.t
+            return SV(z3.If(t >= 0, z3.ToInt(t), -z3.ToInt(-t)), 'int')     # C cast: truncation toward zero
+        if v != v or v in (float('inf'), float('-inf')):
+            raise Unsupported('cast of nan/inf to an integer array')
+        return int(v)
+    return v
+
+
+def cast_value(I, v, dt):
+    """the value numpy stores when `v` is assigned into an array of dtype dt (sequences: a cast copy)"""
+    if dt not in ('int', 'float'):
+        return v
+    if is_list(v):
+        if v.kind == 'slist':
+            c = I.st.heap[v]
+            want = 'real' if dt == 'float' else 'int'
+            if c['ek'] == want:
+                return v
+            if want == 'real':
+                nc = dict(c)
+                nc['arr'] = _coerce_arr(c['arr'], 'int', 'real')
+                nc['ek'] = 'real'
+                return I.st.alloc('slist', nc, nd=v.nd)
+            raise Unsupported('float sequence of symbolic length stored into an integer ndarray')
+        items = I.st.heap[v]
+        if all((not is_list(x)) and (numkind(x) == ('real' if dt == 'float' else 'int')) for x in items):
+            return v
+        return I.st.alloc('clist', [cast_value(I, x, dt) for x in items], nd=v.nd)
+    if isinstance(v, tuple):
+        return tuple(cast_value(I, x, dt) for x in v)
+    return cast_scalar(I, v, dt)
+
+
+def _store_cast(I, obj, v):
+    if isinstance(obj, Ref) and obj.nd and obj.kind in ('clist', 'slist') and (numkind(v) is not None or is_list(v) or isinstance(v, tuple)):
+        if obj.kind == 'clist' and not I.st.heap[obj]:
+            return v
+        return cast_value(I, v, nd_dtype(I, obj))
+    return v
+
+
+
 def setitem(I, obj, idx, v):
     st = I.st
+    v = _store_cast(I, obj, v)
     if isinstance(obj, Ref) and obj.kind in ('clist', 'slist') and obj.nd and _is_bool_mask(I, idx):
         return mask_assign(I, obj, idx, v)
     if isinstance(obj, Ref) and obj.kind in ('clist', 'slist') and obj.nd and isinstance(idx, Ref) and idx.kind == 'clist' \
@@ -523,6 +611,7 @@ def list_assign_all(I, target, v):
     """target[:] = v"""
     st = I.st
     st.note_write(target)
+    v = _store_cast(I, target, v)
     if target.kind == 'clist':
         items = seq_items(I, v)
         if items is not None:
@@ -1421,7 +1510,7 @@ def container_method(I, obj, name):
         if name in ('shape',):
             return (list_len(I, obj),)
         if name == 'dtype' and obj.nd:
-            return TypeTag('float')
+            return TypeTag(nd_dtype(I, obj))
         if name == 'astype':
             return B(lambda I_, a, k: _astype(I_, obj, a[0]))
         if name == 'count' and obj.kind == 'clist':
@@ -1548,10 +1637,40 @@ def container_method(I, obj, name):
     raise Unsupported('method %s of %r' % (name, obj))
 
 
+def dtype_name(t):
+    """a dtype argument -> 'int' | 'float' | 'bool' | None (not given)"""
+    if t is None:
+        return None
+    if isinstance(t, TypeTag):
+        n = {'float': 'float', 'int': 'int', 'Integral': 'int', 'bool': 'bool'}.get(t.name)
+    elif isinstance(t, str):
+        n = {'float64': 'float', 'float': 'float', 'float32': 'float', 'd': 'float', 'f': 'float', 'f8': 'float', 'double': 'float',
+             'int': 'int', 'int64': 'int', 'int32': 'int', 'i': 'int', 'i8': 'int', 'bool': 'bool'}.get(t)
+    else:
+        n = None
+    if n is None:
+        raise Unsupported('dtype %r' % (t,))
+    return n
+
+
 def _astype(I, obj, t):
-    if isinstance(t, TypeTag) and t.name == 'float':
-        return snapshot_copy(I, obj)
-    raise Unsupported('astype')
+    dt = dtype_name(t)
+    r = snapshot_copy(I, obj)
+    if dt in ('int', 'float'):
+        c = cast_value(I, r, dt)
+        if c is not r:
+            c.nd = True
+            _deep_nd(I, c)
+        return c
+    raise Unsupported('astype(%s)' % dt)
+
+
+def _deep_nd(I, r):
+    if r.kind == 'clist':
+        for x in I.st.heap[r]:
+            if is_list(x):
+                x.nd = True
+                _deep_nd(I, x)
 
 
 def snapshot_copy(I, obj):
